@@ -213,6 +213,25 @@ fn test_duration(c: &ZDur, cx: &mut Cx) -> CaseResult {
         cmp_res("checked_add(std)", &ctx, zdt.checked_add(u), &want, &z, cx)?;
         cmp_res("checked_sub(std)", &ctx, zdt.checked_sub(u), &wsub, &z, cx)?;
     }
+    if dn >= 0 {
+        let u = std::time::Duration::new(c.secs as u64, c.nanos as u32);
+        if let Res::Instant(_) = want {
+            cmp_res("&zdt+std", &ctx, Ok(&zdt + u), &want, &z, cx)?;
+            let mut g = zdt.clone();
+            g += u;
+            cmp_res("zdt+=std", &ctx, Ok(g), &want, &z, cx)?;
+        }
+        if let Res::Instant(_) = wsub {
+            cmp_res("&zdt-std", &ctx, Ok(&zdt - u), &wsub, &z, cx)?;
+            let mut g = zdt.clone();
+            g -= u;
+            cmp_res("zdt-=std", &ctx, Ok(g), &wsub, &z, cx)?;
+        }
+        let wsat_add = if let Res::Err = want { lim(false) } else { want.clone() };
+        let wsat_sub = if let Res::Err = wsub { lim(true) } else { wsub.clone() };
+        cmp_res("saturating_add(std)", &ctx, Ok(zdt.saturating_add(u)), &wsat_add, &z, cx)?;
+        cmp_res("saturating_sub(std)", &ctx, Ok(zdt.saturating_sub(u)), &wsat_sub, &z, cx)?;
+    }
     // operator forms (documented to panic on overflow: only when in range)
     if let Res::Instant(_) = want {
         cmp_res("&zdt+duration", &ctx, Ok(&zdt + d), &want, &z, cx)?;
@@ -264,6 +283,18 @@ fn test_duration(c: &ZDur, cx: &mut Cx) -> CaseResult {
         }
         if dn >= 0 {
             let u = std::time::Duration::new(c.secs as u64, c.nanos as u32);
+            if let Res::Instant(_) = want {
+                let mut g = ts;
+                g += u;
+                ck("+std", Ok(ts + u), &want)?;
+                ck("+=std", Ok(g), &want)?;
+            }
+            if let Res::Instant(_) = wsub {
+                let mut g = ts;
+                g -= u;
+                ck("-std", Ok(ts - u), &wsub)?;
+                ck("-=std", Ok(g), &wsub)?;
+            }
             ck("checked_add(std)", ts.checked_add(u), &want)?;
             ck("checked_sub(std)", ts.checked_sub(u), &wsub)?;
             ck("saturating_add(std)", ts.saturating_add(u), &wsat_add)?;
